@@ -280,3 +280,61 @@ Fixpoint problems_aux (seen : list claim) (its : list item) : list verdict :=
       end
   end.
 Definition all_problems (cfg : config) : list verdict := problems_aux [] (items cfg).
+
+(* ---- a consumer of the classification: the AAA policy of a classified pair ----
+   Ranges and groups carry an AAA policy name (VLANRange.AAA.Policy, SubscriberGroup.AAAPolicy; "" = unset).
+   The policy of a pair is the policy of THE RANGE the pair is classified to, the group's policy when that range has
+   none (internal/ipoe: match.VR.AAA.Policy, else match.Group.AAAPolicy).
+   internal/l2gw publishAAARequest instead called match.Group.GetPolicyName(svlan) (pkg/config/subscriber/group.go):
+   FindVLANConfig rescans the group's ranges by S-VLAN only and takes the first one that contains it, whatever its
+   C-VLAN selector ([l2gw_policy_rescan], variant "defective"). *)
+Definition arange := (str * str * str)%type.                    (* svlan, cvlan, AAA policy *)
+Definition agroup := (str * str * list arange)%type.            (* name, group AAA policy, ranges *)
+Definition aconfig := list agroup.
+
+Definition strip_group (g : agroup) : group :=
+  (fst (fst g), map (fun r : arange => (fst (fst r), snd (fst r))) (snd g)).
+Definition strip (a : aconfig) : config := map strip_group a.
+
+Definition find_group (a : aconfig) (name : str) : option agroup :=
+  find (fun g : agroup => str_eqb (fst (fst g)) name) a.
+
+Definition pol_or (p gp : str) : str := match p with [] => gp | _ => p end.
+
+(* policy of range #idx of group [name] *)
+Definition policy_of (a : aconfig) (name : str) (idx : nat) : str :=
+  match find_group a name with
+  | None => []
+  | Some g => match nth_error (snd g) idx with
+              | Some r => pol_or (snd r) (snd (fst g))
+              | None => snd (fst g)
+              end
+  end.
+
+(* VLANRange.MatchesSVLAN: the svlan string parses and the list contains s *)
+Definition matches_svlan (r : arange) (s : N) : bool :=
+  match parse_vlan_range (fst (fst r)) with Some svs => existsb (N.eqb s) svs | None => false end.
+
+(* SubscriberGroup.GetPolicyName(svlan): FindVLANConfig = first range whose S-VLAN list contains s *)
+Definition rescan_policy (g : agroup) (s : N) : str :=
+  match find (fun r => matches_svlan r s) (snd g) with
+  | Some r => pol_or (snd r) (snd (fst g))
+  | None => snd (fst g)
+  end.
+
+(* (group name, AAA policy) the l2gw trigger authenticates a pair with: by the matched range *)
+Definition l2gw_policy (a : aconfig) (s c : N) : option (str * str) :=
+  match lookup (build (strip a)) s c with
+  | Some (n, i) => Some (n, policy_of a n i)
+  | None => None
+  end.
+
+(* ... and through the S-VLAN-only rescan of the matched group *)
+Definition l2gw_policy_rescan (a : aconfig) (s c : N) : option (str * str) :=
+  match lookup (build (strip a)) s c with
+  | Some (n, _) => match find_group a n with
+                   | Some g => Some (n, rescan_policy g s)
+                   | None => Some (n, [])
+                   end
+  | None => None
+  end.
